@@ -1,5 +1,6 @@
 import MontePyVerif.Lemmas.Queue
 import MontePyVerif.Lemmas.Paths
+import MontePyVerif.Lemmas.Flatten
 /-!
 # C20 — files pulled in by read cards are merged exactly once, in the right block
 
@@ -145,6 +146,83 @@ theorem C20_missing_error (ll : Nat) (fs : FS) (main : Str) (bytes : List Nat) (
   rw [firstRaise_append] at hp
   simp only [firstRaise, firstRaise_append, hfront, firstRaise_cut]
   rw [hp, serve_missing _ _ _ _ habs]
+  rfl
+
+/-! ## Part 2: the merged problem is the Spec's flattening -/
+
+open MontePyVerif.Refine MontePyVerif.Flatten in
+theorem proj_frontEvents (bytes : List Nat) : proj (frontEvents bytes) = [] := by
+  unfold frontEvents readFrontMatters
+  cases fileLines bytes with
+  | nil => rfl
+  | cons l0 rest =>
+    simp only
+    split
+    · generalize [rstrip l0] = raw
+      generalize [List.drop 9 l0] = ls
+      induction rest generalizing raw ls with
+      | nil => rfl
+      | cons l rest ih =>
+        unfold messageLoop
+        split
+        · exact ih _ _
+        · cases rest <;> rfl
+    · rfl
+
+open MontePyVerif.Refine MontePyVerif.Flatten in
+/-- **C20_flatten**: for every file system, top-level file and nesting depth — provided the top-level file's body and
+    every file that gets served consist of lines on which the code's rules and MCNP's coincide (`FileOK`, `EntryOK`:
+    the named, decidable exclusions of `Refine.GoodLine` and `wellTerminated`) — what `read_input_syntax` yields,
+    seen through `proj` (block and words of every input, read cards, errors), is exactly the Spec's flattened
+    problem: the top file's inputs, then generation by generation the inputs of the files named by the read cards,
+    each in the block of its card, in the order the cards are met, cut at the first error (malformed read card,
+    missing file, cycle).  No acyclicity or presence hypothesis is needed: a cycle and a missing file are errors
+    on both sides. -/
+theorem C20_flatten (ll : Nat) (fs : FS) (files : Spec.Files) (main : Str) (bytes : List Nat) (d extra : Nat)
+    (hm : fs main = some bytes) (hd : Nesting ll fs main bytes d)
+    (body : List Spec.Line)
+    (hmain : FileOK ll 0 (readFrontMatters (fileLines bytes)).2 body)
+    (hserved : ∀ e ∈ servedCards ll fs main bytes d, EntryOK ll fs files (dirname main) e) :
+    proj (readAll ll (extra + enoughFuel ll fs main bytes d) fs main) =
+      Spec.cutS (Spec.fileStream ll (joinPath (dirname main)) [main] 0 body ++
+        Spec.gensS ll files (joinPath (dirname main)) d
+          (Spec.cards (Spec.fileStream ll (joinPath (dirname main)) [main] 0 body))) := by
+  rw [C20_queue ll fs main bytes d extra hm hd]
+  simp only [proj_cons, proj_append, projEv, proj_frontEvents, List.nil_append]
+  rw [proj_cut, proj_append]
+  have hM : proj (mainEvents ll main bytes) =
+      Spec.cutS (Spec.fileStream ll (joinPath (dirname main)) [main] 0 body) := by
+    have := fileStream_ok ⟨ll, .cell, main, [main]⟩ rfl _ body hmain
+    exact this
+  generalize hs : Spec.fileStream ll (joinPath (dirname main)) [main] 0 body = sMain at *
+  unfold servedCards at hserved ⊢
+  rw [← gens_eq_served, hM]
+  cases herr : sMain.any isErr
+  · rw [cutS_of_noErr _ herr, cutS_append_noErr _ _ herr, cutS_append_noErr _ _ herr]
+    congr 1
+    have hcards : Spec.cards sMain = (enqueued (mainEvents ll main bytes)).map toP := by
+      rw [← cards_proj, hM, cutS_of_noErr _ herr]
+    rw [hcards]
+    apply gens_refines ll fs files main d _ _ hserved
+    intro e he
+    have := enq_goLines ⟨ll, .cell, main, [main]⟩ _ _ e he
+    rw [this]; rfl
+  · rw [cutS_cutS_append, cutS_append_err _ _ herr, cutS_append_err _ _ herr]
+
+/-- … and therefore equals `Spec.flatten`, whenever the Spec finds the same body behind the front matter
+    (message block and title) of the top-level file. -/
+theorem C20_flatten_spec (ll : Nat) (fs : FS) (files : Spec.Files) (main : Str) (bytes : List Nat) (d extra : Nat)
+    (hm : fs main = some bytes) (hd : Nesting ll fs main bytes d)
+    (lines body : List Spec.Line) (hfiles : files main = some lines)
+    (hfront : (Spec.logicalInputs ll lines).inputs = Spec.inputsFrom ll 0 body)
+    (hmain : MontePyVerif.Flatten.FileOK ll 0 (readFrontMatters (fileLines bytes)).2 body)
+    (hserved : ∀ e ∈ servedCards ll fs main bytes d, MontePyVerif.Flatten.EntryOK ll fs files (dirname main) e) :
+    MontePyVerif.Refine.proj (readAll ll (extra + enoughFuel ll fs main bytes d) fs main) =
+      (Spec.flatten ll files (joinPath (dirname main)) d main).outs := by
+  rw [C20_flatten ll fs files main bytes d extra hm hd body hmain hserved]
+  unfold Spec.flatten
+  rw [hfiles]
+  simp only [hfront]
   rfl
 
 /-- `open(path)` as the operating system resolves it from the working directory `cwd`, on a disk whose files
